@@ -45,7 +45,13 @@ CLAIM = dict(
     "kind rule / permutation vs real byte strings. NOT modelled: np.savez / pickle value fidelity, cv2.imencode / imdecode / "
     "imwrite, PNG / TIFF codecs, skimage dtype conversion - the bit-identical round trips (images over the whole metadata "
     "space, 8/16-bit grey / single-channel / colour byte strings, optical write -> imread, the five savable corrections with "
-    "random configurations) are observed by the oracle only.",
+    "random configurations; every one of the five must be round-tripped in most of its cases, otherwise a mark) are "
+    "observed by the oracle only. Attribute provenance of the corrections (correct_reads_are_restored, "
+    "load_restores_used_state) is syntactic (AST, branches not distinguished). The single-channel row of the kind rule "
+    "((h, w, 1) decoded arrays) is reached only through the patched decoder (cv2.imdecode never returns that shape). Outside "
+    "the literal statement and NOT preserved: OpticalImage.original_dtype is not part of metadata(); an image converted to "
+    "float after construction reloads with original_dtype = float, so a later write() of the reloaded object raises "
+    "NotImplementedError where the saved object could write.",
     note="bit-identical pixel data / values after a round trip rest on the observed round trips; the theorems cover the "
     "metadata round trip modulo value fidelity of the serialiser, and DarSIA's dispatch / field bookkeeping",
     technique="Lean 4 proof (parametric round-trip theorem over generated key tables; decide) + G1 tabulation + G2 AST extraction; "
@@ -87,9 +93,53 @@ def consumed_kwargs(cls):
                     and isinstance(node.left, ast.Constant) and isinstance(node.left.value, str)
                     and isinstance(node.comparators[0], ast.Name) and node.comparators[0].id == "kwargs"):
                 k = node.left.value
+            if (isinstance(node, ast.Subscript) and isinstance(node.value, ast.Name) and node.value.id == "kwargs"
+                    and isinstance(node.slice, ast.Constant) and isinstance(node.slice.value, str)):
+                k = node.slice.value
             if k is not None and k not in keys:
                 keys.append(k)
     return keys
+
+
+def attr_provenance(cls, base_cls):
+    """G2: attributes of `self` that correct_array (transitively through self.method() calls) READS, that load (transitively)
+    STORES, and that __init__ (transitively) STORES"""
+    methods = {}
+    for c in cls.__mro__:
+        if c in (base_cls, object) or c.__module__.startswith("abc"):
+            continue
+        try:
+            tree = ast.parse(textwrap.dedent(inspect.getsource(c)))
+        except (OSError, TypeError):
+            continue
+        for node in tree.body[0].body:
+            if isinstance(node, ast.FunctionDef) and node.name not in methods:
+                methods[node.name] = node
+
+    def closure(start):
+        seen, todo = [], [start]
+        while todo:
+            m = todo.pop()
+            if m in seen or m not in methods:
+                continue
+            seen.append(m)
+            for n in ast.walk(methods[m]):
+                if isinstance(n, ast.Call) and isinstance(n.func, ast.Attribute) and isinstance(n.func.value, ast.Name) \
+                        and n.func.value.id == "self" and n.func.attr in methods:
+                    todo.append(n.func.attr)
+        return seen
+
+    def attrs(ms, ctx_type):
+        out = set()
+        for m in ms:
+            for n in ast.walk(methods[m]):
+                if isinstance(n, ast.Attribute) and isinstance(n.value, ast.Name) and n.value.id == "self" \
+                        and isinstance(n.ctx, ctx_type) and n.attr not in methods:
+                    out.add(n.attr)
+        return sorted(out)
+
+    return dict(reads=attrs(closure("correct_array"), ast.Load), restored=attrs(closure("load"), ast.Store),
+                init=attrs(closure("__init__"), ast.Store))
 
 
 def tiny(d, name):
@@ -195,7 +245,8 @@ def tabulate(d, tmp):
             corr[name] = dict(implementsSave=impl, writesClassName="class_name" in saved_f,
                               resolvable=hasattr(rc, name), inUnion=name in union,
                               defaultConstructible=not isinstance(quiet(obj), Raised) if impl else False,
-                              saved=saved_f, loaded=loaded_f if impl else [])
+                              saved=saved_f, loaded=loaded_f if impl else [],
+                              **(attr_provenance(obj, d.BaseCorrection) if impl else dict(reads=[], restored=[], init=[])))
     t["corr"] = corr
     return t
 
@@ -243,6 +294,13 @@ def emit(t):
         L.append(f"def {tab} : Corr → List Field")
         for n in names:
             L.append(f"  | .{n} => " + llist(t["corr"][n][tab], lambda f: "." + f))
+    cattrs = sorted({a for c in t["corr"].values() for k in ("reads", "restored", "init") for a in c[k]})
+    L.append("inductive CAttr" + "".join(f" | a_{a}" for a in cattrs) + (" | a_none" if not cattrs else ""))
+    L.append("  deriving DecidableEq, Repr")
+    for tab, nm in (("reads", "correctReads"), ("restored", "loadStores"), ("init", "initStores")):
+        L.append(f"def {nm} : Corr → List CAttr")
+        for n in names:
+            L.append(f"  | .{n} => " + llist(t["corr"][n][tab], lambda a: ".a_" + a))
     L += ["", "end Darsia.Gen"]
     return "\n".join(L) + "\n"
 
@@ -456,10 +514,10 @@ def oracle_write(ctx, d, tmp):
         if isinstance(res, Raised):
             ctx.fail(f"C18:write-imread({sig},{ext}):raises-{type(res.exc).__name__}", f"write -> imread raises {res.exc!r}", case)
             continue
-        rgb = quiet(lambda: img.to_trichromatic("RGB", return_image=True))
-        if isinstance(rgb, Raised):
-            continue
-        want = skimage.img_as_float(rgb.img).astype(np.float64)
+        # the colours this image stands for, independently of the implementation's conversions: it was built from the
+        # integer RGB array `arr` (or, held as integers with color_space="BGR", from `arr` read as B, G, R)
+        true_rgb = arr[..., ::-1] if (held == "integer" and space == "BGR") else arr
+        want = skimage.img_as_float(true_rgb).astype(np.float64)
         # integer data: exact; float data: one quantisation step of the file (plus the float32 colour conversion)
         tol = 0.0 if held == "integer" else 1.5 / (255.0 if dtype == np.uint8 else 65535.0) + 1e-6
         dev = float(np.max(np.abs(res.img - want))) if res.img.shape == want.shape else None
@@ -485,7 +543,7 @@ def correction_cases(ctx, d, photo):
         a = (a / 255.0).astype(np.float32)
     out.append(("TypeCorrection", lambda: d.TypeCorrection(ty), a, dict(data_type=getattr(ty, "__name__", str(ty)), src=np.dtype(src).name)))
     # DriftCorrection: random textured base, probe shifted by a few pixels
-    y0, x0 = rnd.randrange(0, 600), rnd.randrange(0, 1500)
+    y0, x0 = rnd.randrange(0, 120), rnd.randrange(0, 120)  # (a feature-rich corner of the photograph)
     base = photo[y0:y0 + 260, x0:x0 + 320].copy()
     probe = np.roll(base, (rnd.randint(-4, 4), rnd.randint(-4, 4)), axis=(0, 1))
     cfg = {"padding": rnd.choice([0.0, 0.05]), "active": rnd.random() < 0.85}
@@ -527,19 +585,30 @@ def correction_cases(ctx, d, photo):
         return il
 
     out.append(("IlluminationCorrection", mk_ill, small.astype(np.float64) / 255.0, dict(colorspace=cs, samples=len(samples))))
-    # ColorCorrection (classic reference colour checker of the example photograph, or custom from the image)
-    ccfg2 = {"roi": d.make_voxel([[176, 154], [176, 222], [68, 222], [68, 154]]), "balancing": rnd.choice(["darsia", "colour"]),
-             "whitebalancing": rnd.random() < 0.7, "colorbalancing": rnd.choice(["affine", "linear"]), "clip": rnd.random() < 0.5,
-             "active": rnd.random() < 0.9}
-    cimg = photo[:400, :400].copy()
-    custom = rnd.random() < 0.4
+    # ColorCorrection on a SYNTHETIC colour checker (4 x 6 swatches at the positions the extraction samples), embedded in a
+    # textured canvas; classic reference colours or custom ones taken from the base image; the probe carries a colour cast
+    sw = r.randint(40, 230, size=(4, 6, 3))
+    ck = np.full((326, 500, 3), 30, dtype=np.uint8)
+    for i, yy in enumerate([12, 93, 175, 255]):
+        for j, xx in enumerate([12, 95, 177, 260, 344, 427]):
+            ck[yy:yy + 50, xx:xx + 50] = sw[i, j]
+    y0, x0 = rnd.randint(10, 60), rnd.randint(10, 90)
+    canvas = np.full((326 + 100, 500 + 140, 3), 90, dtype=np.int64) + r.randint(-3, 4, size=(426, 640, 3))
+    canvas[y0:y0 + 326, x0:x0 + 500] = ck
+    canvas = canvas.clip(0, 255).astype(np.uint8)
+    gains = np.array([rnd.choice([0.8, 1.0, 1.15]), rnd.choice([0.9, 1.0]), rnd.choice([0.85, 1.1])])
+    cimg = (canvas * gains).clip(0, 255).astype(np.uint8)
+    ccfg2 = {"roi": d.make_voxel([[y0, x0], [y0 + 326, x0], [y0 + 326, x0 + 500], [y0, x0 + 500]]),
+             "balancing": rnd.choice(["darsia", "colour"]), "whitebalancing": rnd.random() < 0.7,
+             "colorbalancing": rnd.choice(["affine", "linear"]), "clip": rnd.random() < 0.5, "active": rnd.random() < 0.9}
+    custom = rnd.random() < 0.5
 
     def mk_cc():
         cv2.setRNGSeed(7)
-        base = d.OpticalImage(cimg, color_space="RGB", dimensions=[1.0, 1.0]) if custom else None
+        base = d.OpticalImage(canvas, color_space="RGB", dimensions=[1.0, 1.0]) if custom else None
         return d.ColorCorrection(base=base, config=ccfg2)
 
-    out.append(("ColorCorrection", mk_cc, cimg, dict(config={k: str(v) for k, v in ccfg2.items()}, custom=custom)))
+    out.append(("ColorCorrection", mk_cc, cimg, dict(config={k: str(v) for k, v in ccfg2.items() if k != "roi"}, custom=custom, gains=gains.tolist())))
     return out
 
 
@@ -548,6 +617,9 @@ def apply_corr(c, arr):
 
     cv2.setRNGSeed(12345)  # cv2.kmeans(KMEANS_RANDOM_CENTERS) inside the colour checker extraction
     return c.correct_array(arr.copy())
+
+
+SAVABLE = ["TypeCorrection", "DriftCorrection", "CurvatureCorrection", "IlluminationCorrection", "ColorCorrection"]
 
 
 def oracle_corrections(ctx, d, tmp):
@@ -559,21 +631,24 @@ def oracle_corrections(ctx, d, tmp):
     else:
         r = np.random.RandomState(0)
         photo = cv2.GaussianBlur(r.randint(0, 255, size=(900, 1900, 3)).astype(np.uint8), (0, 0), 3)
-        ctx.notes.append("example photograph not found: corrections exercised on synthetic texture, ColorCorrection skipped")
-    seen = set()
+        ctx.notes.append("example photograph not found: drift / curvature / illumination exercised on synthetic texture")
+    stats = {n: dict(cases=0, not_constructible=0, unusable_configuration=0, not_repeatable=0, round_tripped=0) for n in SAVABLE}
     for n in range(ctx.pick(12, 120)):
         for name, mk, arr, desc in correction_cases(ctx, d, photo):
-            if name == "ColorCorrection" and not photo_path.exists():
-                continue
             case = dict(correction=name, **desc)
+            st = stats[name]
+            st["cases"] += 1
             ctx.count(("corr", name, repr(desc)))
             c = quiet(mk)
             if isinstance(c, Raised):
-                ctx.notes.append(f"{name}: could not construct ({c.exc!r})")
+                st["not_constructible"] += 1
+                st.setdefault("example_error", repr(c.exc)[:200])
                 continue
             before = quiet(apply_corr, c, arr)
             if isinstance(before, Raised):
-                continue  # the configuration itself is not usable; persistence is not at stake
+                st["unusable_configuration"] += 1  # persistence is not at stake; counted and thresholded below
+                st.setdefault("example_error", repr(before.exc)[:200])
+                continue
             p = tmp / f"corr_{name}.npz"
             c2 = quiet(lambda: (c.save(p), d.read_correction(p))[1])
             if isinstance(c2, Raised):
@@ -585,16 +660,13 @@ def oracle_corrections(ctx, d, tmp):
             after = quiet(apply_corr, c2, arr)
             again = quiet(apply_corr, c, arr)
             if isinstance(again, Raised) or not np.array_equal(np.asarray(again), np.asarray(before)):
-                ctx.notes.append(f"{name}: not deterministic on repeated application; case skipped")
+                st["not_repeatable"] += 1
                 continue
-            seen.add(name)
-            # public configuration of the correction, where it exposes one
-            for getter in ("return_config", ):
-                if hasattr(c, getter):
-                    g1, g2 = quiet(getattr(c, getter)), quiet(getattr(c2, getter))
-                    if not isinstance(g1, Raised) and (isinstance(g2, Raised) or not deep_equal(g1, g2)):
-                        ctx.fail(f"C18:correction({name}):config-differs", f"{getter}() of the reloaded correction differs: {g1!r} vs {g2!r}"[:400], case)
-            # public plain-data attributes of the correction object (documented state such as roi, active, config, data_type)
+            st["round_tripped"] += 1
+            if hasattr(c, "return_config"):
+                g1, g2 = quiet(c.return_config), quiet(c2.return_config)
+                if not isinstance(g1, Raised) and (isinstance(g2, Raised) or not deep_equal(g1, g2)):
+                    ctx.fail(f"C18:correction({name}):config-differs", f"return_config() of the reloaded correction differs: {g1!r} vs {g2!r}"[:400], case)
             for attr, v in sorted(vars(c).items()):
                 if attr.startswith("_") or attr in ("cache", "use_cache", "cache_path") or not plain(v):
                     continue
@@ -608,7 +680,14 @@ def oracle_corrections(ctx, d, tmp):
                 dev = float(np.max(np.abs(np.asarray(after, dtype=float) - np.asarray(before, dtype=float)))) if np.asarray(after).shape == np.asarray(before).shape else None
                 ctx.fail(f"C18:correction({name}):output-differs", f"the reloaded correction produces a different output (max deviation {dev})",
                          dict(case, max_dev=dev))
-    ctx.cov["corrections_round_tripped"] = sorted(seen)
+    ctx.cov["corrections"] = stats
+    for name, st in stats.items():
+        # every named correction must actually have been round-tripped, in most of its cases: a class that always raises,
+        # cannot be constructed or jitters is REPORTED, not silently dropped from the persistence check
+        skipped = st["not_constructible"] + st["unusable_configuration"] + st["not_repeatable"]
+        if st["round_tripped"] == 0 or skipped > 0.5 * max(st["cases"], 1):
+            ctx.mark("ORACLE-VACUOUS", {"correction": name, **st,
+                                        "meaning": "persistence of this correction was not (or hardly) exercised"})
 
 
 def constructor_provenance(ctx, d):
@@ -672,6 +751,9 @@ def replay(data):
 
 def run(ctx):
     import darsia as d
+
+    _fail = ctx.fail
+    ctx.fail = lambda sig, what, rep: _fail(sig, what, dict(rep, verif_seed=ctx.seed, tier=ctx.tier))  # replays are reproducible
 
     tmp = Path(tempfile.mkdtemp(prefix="darsia-c18-"))
     try:
